@@ -151,6 +151,9 @@ pub(crate) fn read_tags_array(
     // NOTE: we cannot write any tag strings until after we have counted the tags.
     // (our tags structure is optimized for reading, not writing)
     let num_tags: usize = count_tags(input, *inposp)?;
+    if num_tags > u16::MAX as usize {
+        return Err(InnerError::OutOfRange(num_tags).into());
+    }
     put(output, 2, (num_tags as u16).to_ne_bytes().as_slice())?;
 
     // Case where we have no tags
@@ -180,6 +183,10 @@ pub(crate) fn read_tags_array(
 
         // Read the tag (bumps inpos and outpos)
         read_tag(input, inposp, output, &mut outpos)?;
+        // All lengths, counts and offsets are stored as u16
+        if outpos > u16::MAX as usize {
+            return Err(InnerError::OutOfRange(outpos).into());
+        }
         eat_whitespace(input, inposp);
 
         // Check what is next
